@@ -1026,16 +1026,26 @@ func hintLifetimes(r *ev.Run, id string) {
 func quotaLeases(r *ev.Run, id string) {
 	s := NewSys(r, id, Pool{"2001:db8:0:40::/58", 64}, 2, false)
 	for k := 0; k < 40 && !s.Terminal(); k++ {
-		p := s.blockPrefix(int64(63 - k))
+		// the lowest free block each time (so that a block the server wrongly gives back is the
+		// first one a hint-less request of another client finds)
+		fb := s.freeBlocks()
+		if len(fb) < 2 {
+			break
+		}
+		p := s.blockPrefix(fb[0])
 		s.Apply(Op{Client: "A", Msg: 3, IAPDs: [][]string{{p}}}, true)
 		if k%4 == 3 && !s.Terminal() {
 			if own, ok := s.resolve("A", "own1"); ok {
-				s.Apply(Op{Client: "A", Msg: 5, IAPDs: [][]string{{own}, {s.blockPrefix(int64(63 - k - 1))}}}, true)
-				k++
+				if fb = s.freeBlocks(); len(fb) > 1 {
+					s.Apply(Op{Client: "A", Msg: 5, IAPDs: [][]string{{own}, {s.blockPrefix(fb[0])}}}, true)
+					k++
+				}
 			}
 		}
 		if k%5 == 4 && !s.Terminal() {
-			s.Apply(Op{Client: "B", Msg: 1, IAPDs: [][]string{{}, {"::/0"}}}, true)
+			// (several unspecified hints in one IA_PD ask for further prefixes: the other client
+			// takes the lowest free blocks)
+			s.Apply(Op{Client: "B", Msg: 1, IAPDs: [][]string{{"::/0", "::/0", "::/0"}}}, true)
 		}
 	}
 	r.Add("quota_sweeps", 1)
